@@ -46,7 +46,7 @@ def plan(tier, seed):
     scs += [dict(kind='quads-M', j=j) for j in range(N)]
     reps = outer_reps()
     return dict(scenarios=scs, exhaustive=True, chunk=8 if tier == 'thorough' else 4,
-                menus=dict(types=N, bond_orders=['guessed', 1, 1.5, 2], rule_sets=['none', 'matching rule', 'non-matching rule'], multiplicities=[1] + MS,
+                menus=dict(types=N, bond_orders=['guessed', 1, 1.5, 2], rule_sets=['none', 'matching rule', 'non-matching rule', 'rules naming a superset / a mixed pair with another type (must not match)', 'three rules, the second matches (first match wins)'], multiplicities=[1] + MS,
                            outer_representatives=[K[i] for i in reps], triple_bond_order_subtable=len(sub),
                            quadruples='all %d^4 ordered quadruples' % N if tier == 'thorough' else 'all %d^2 central pairs x %d^2 outer representatives' % (N, len(reps))),
                 bounds=dict(), rule='every ordered pair / triple / quadruple of the parameter table is one case; non-trivial = the combination takes a special-case branch (non-default bond order, cosine/periodic angle, torsion other than the default mixed case)',
@@ -79,10 +79,12 @@ def run(sc, ctx):
         i = sc['i']; a = K[i]
         for j, b in enumerate(K):
             for bo in BOS:
-                for rules, rname in ((None, 'none'), ([({a, b}, 2)], 'match'), ([({'Zz_1', 'Qq'}, 3)], 'nomatch')):
+                other = K[(i + 7) % N] if K[(i + 7) % N] not in (a, b) else K[(i + 8) % N]
+                for rules, rname in ((None, 'none'), ([({a, b}, 2)], 'match'), ([({'Zz_1', 'Qq'}, 3)], 'nomatch'),
+                                     ([({a, b, other}, 2), ({a, other}, 2), ({other}, 2)], 'nomatch-superset'), ([({a, other}, 1.5), ({a, b}, 2), ({a, b}, 1)], 'match-second-of-three')):
                     if bo is not None and rules is not None:
                         continue
-                    eff = bo if bo is not None else (2.0 if rname == 'match' else REF.BO[i, j])
+                    eff = bo if bo is not None else (2.0 if rname.startswith('match') else REF.BO[i, j])
                     ri, rj = REF.r[i], REF.r[j]
                     rbo = -0.1332 * (ri + rj) * math.log(eff)
                     ren = ri * rj * (math.sqrt(REF.chi[i]) - math.sqrt(REF.chi[j])) ** 2 / (REF.chi[i] * ri + REF.chi[j] * rj)
